@@ -1,6 +1,123 @@
 #!/usr/bin/env python3
-"""Thorough-tier supplements (filled in below): simcheck flavour, real-thread supplement, Miri, determinism."""
-import json, sys
+"""Thorough-tier supplements, run by ./check <ID> --tier thorough before the main batch.
+
+ 1. determinism self-test (all properties): 200 run indices executed under 3 process layouts,
+    event-log hashes must be identical -> otherwise harness error (exit 2)
+ 2. simcheck flavour (debug-assertions + overflow-checks on, hooks on): a tenth of the thorough
+    batch (the full batch for C20) - an arithmetic overflow or a debug assertion becomes a caught
+    panic and hence a violation of the "no internal panic" oracle
+ 3. real-thread supplement (C14, C17; NOT deciding, uncontrolled): plain build (guard off, real
+    rayon, real mutex contention), tasks run as free-running OS threads; the oracles are
+    schedule-independent, so a mismatch is a true violation, but it may not replay
+ 4. Miri sample (C17): a few tiny C-API scenarios interpreted by Miri (memory bounds witness)
+
+Writes a JSON summary (merged into the evidence file under coverage.supplements) and prints
+VIOLATION lines of the supplement batches. Exit code: 0 ok, 1 violation, 2 harness error.
+"""
+import json, os, subprocess, sys, time
+
+V = "/verif"
 prop, seed, jobs, out = sys.argv[1], int(sys.argv[2]), int(sys.argv[3]), sys.argv[4]
-json.dump({}, open(out, "w"))
-sys.exit(0)
+env = dict(os.environ, CARGO_NET_OFFLINE="true")
+summary = {}
+rc = 0
+
+
+def build(flavour):
+    flags = "" if flavour == "plain" else "--cfg llguidance_verif"
+    profile = "simcheck" if flavour == "simcheck" else "release"
+    e = dict(env, CARGO_TARGET_DIR=f"{V}/target-{flavour}", RUSTFLAGS=flags)
+    r = subprocess.run(["cargo", "build", "--profile", profile, "--offline"], cwd=f"{V}/sim", env=e,
+                       stdout=subprocess.PIPE, stderr=subprocess.STDOUT, text=True)
+    if r.returncode != 0:
+        print(f"HARNESS-ERROR build of flavour {flavour} failed")
+        print(r.stdout[-2000:])
+        return None
+    sub = "simcheck" if flavour == "simcheck" else "release"
+    return f"{V}/target-{flavour}/{sub}/llg-sim"
+
+
+def run_batch(binary, args, label):
+    global rc
+    t0 = time.time()
+    r = subprocess.run([binary, "batch", "--prop", prop, "--seed", str(seed), "--jobs", str(jobs),
+                        "--out", f"{V}/out", "--known", f"{V}/known_findings.json"] + args,
+                       stdout=subprocess.PIPE, stderr=subprocess.STDOUT, text=True)
+    lines = r.stdout.splitlines()
+    for l in lines:
+        if l.startswith(("VIOLATION", "KNOWN-FINDING", "HARNESS-ERROR", "  oracle=")):
+            print(f"[{label}] {l}" if not l.startswith(("VIOLATION", "KNOWN-FINDING")) else l)
+    runs = [l for l in lines if l.startswith("runs=")]
+    summary[label] = {"exit": r.returncode, "wall_s": round(time.time() - t0, 1),
+                      "summary": runs[0] if runs else "", "args": " ".join(args)}
+    if r.returncode > rc:
+        rc = r.returncode
+
+
+main_bin = f"{V}/target-verif/release/llg-sim"
+counts = json.loads(subprocess.run([main_bin, "counts"], stdout=subprocess.PIPE, text=True).stdout or "{}")
+thorough_n = counts.get(prop, {}).get("thorough", 10000)
+
+# 1. determinism
+t0 = time.time()
+r = subprocess.run([main_bin, "selftest", "--prop", prop, "--tier", "thorough", "--seed", str(seed), "--count", "200"],
+                   stdout=subprocess.PIPE, stderr=subprocess.STDOUT, text=True)
+last = r.stdout.strip().splitlines()[-1] if r.stdout.strip() else ""
+print(last)
+summary["determinism_selftest"] = {"exit": r.returncode, "result": last, "wall_s": round(time.time() - t0, 1)}
+if r.returncode != 0:
+    print("HARNESS-ERROR nondeterminism detected")
+    for l in r.stdout.splitlines():
+        if l.startswith("NONDET"):
+            print(l)
+    rc = max(rc, 2)
+
+# 2. simcheck flavour
+b = build("simcheck")
+if b is None:
+    rc = max(rc, 2)
+else:
+    n = thorough_n if prop == "C20" else max(200, thorough_n // 10)
+    # different run indices than the main batch would be pointless (same scenarios are the point:
+    # same histories, now with overflow checks); use the first n indices
+    run_batch(b, ["--tier", "thorough", "--count", str(n), "--flavour", "simcheck"], "simcheck_overflow_and_debug_assertions")
+
+# 3. real threads
+if prop in ("C14", "C17"):
+    b = build("plain")
+    if b is None:
+        rc = max(rc, 2)
+    else:
+        run_batch(b, ["--tier", "thorough", "--count", str(max(200, thorough_n // 10)), "--real-threads",
+                      "--flavour", "plain-real-threads"], "real_thread_supplement_uncontrolled")
+
+# 4. Miri
+if prop == "C17":
+    t0 = time.time()
+    e = dict(env, CARGO_TARGET_DIR=f"{V}/target-miri", MIRIFLAGS="-Zmiri-disable-isolation -Zmiri-ignore-leaks")
+    files = [f"{V}/regress/F2_par_mask_overread.json", f"{V}/regress/M1_capi_small.json"]
+    res = []
+    for f in files:
+        if not os.path.exists(f):
+            continue
+        r = subprocess.run(["cargo", "+nightly", "miri", "run", "--offline", "--", "replay", f],
+                           cwd=f"{V}/sim", env=e, stdout=subprocess.PIPE, stderr=subprocess.STDOUT, text=True,
+                           timeout=3600)
+        ub = "Undefined Behavior" in r.stdout
+        res.append({"scenario": os.path.basename(f), "exit": r.returncode, "undefined_behaviour": ub,
+                    "tail": r.stdout.strip().splitlines()[-3:]})
+        if ub:
+            print(f"  oracle=miri signature=undefined_behaviour detail={f}")
+            print(f"VIOLATION property={prop} replay={f}")
+            rc = max(rc, 1)
+        elif r.returncode not in (0,):
+            # replay exits 1 only if the scenario violates an oracle; anything else is a harness problem
+            if "VIOLATION" in r.stdout:
+                print(f"VIOLATION property={prop} replay={f}")
+                rc = max(rc, 1)
+            else:
+                print(f"note: miri run of {f} ended with exit {r.returncode} (not judged)")
+    summary["miri_sample"] = {"runs": res, "wall_s": round(time.time() - t0, 1)}
+
+json.dump(summary, open(out, "w"), indent=1)
+sys.exit(rc)
